@@ -24,6 +24,9 @@ def obligations(tier):
     # delivered: that would rebuild every recipient as 'to do') belong to "never retried / at most one attempt" as well
     obls = _borrow("C03", ["del_dochan", "pass_dochan", "markdone", "job_close", "pqadd", "todo_do"], tier)
     obls.append(_plan("C16").startup_obligation())
+    # the spawner's side (spawn.c is an anchor of this property): a delivery number that is in use is refused, a slot is free again only
+    # after its one report
+    obls += _borrow("C18", ["spawn_docmd", "spawn_main"], tier)
     obls.append(Obl("del_start", "del_start.c",
         progs=[Prog("qmail-send.c", nomain=True, cut=["comm_write", "comm_canwrite", "del_status"])],
         repo=STR, lib=["arena_stralloc.c"], defines={"ARENA_CAP": 32, "ARENA_SLOTS": 8},
